@@ -94,6 +94,15 @@ export function genSplitProject(rng, p) {
   function newExport(X) {
     const F = files.get(place.get(X)), ln = local.get(X);
     const st = stmtsOfDecl.get(X);
+    // exported under the name of a TYPE PARAMETER of some generic declaration (`export { Local as T }`): reached only through
+    // `import("…").T` / `NS.T`, where the name after the dot is an export of that file whatever parameters are in scope
+    const params = [...new Set(decls.flatMap((x) => x[2]))].filter((n) => !F.exported.has(n));
+    if (params.length && rng.chance(1, 3)) {
+      const en = rng.pick(params);
+      F.exported.add(en);
+      F.stmts.push({ kind: "export-local", name: ln, renamed: en });
+      return { file: F.name, kind: "named", name: en };
+    }
     const r = rng.below(8);
     if (r < 2 && !F.exported.has(ln) && st.kind === "decl") { st.exported = true; F.exported.add(ln); return { file: F.name, kind: "named", name: ln }; }
     if (r < 4 && !F.exported.has(ln)) { F.exported.add(ln); F.stmts.push({ kind: "export-local", name: ln, renamed: ln, typeOnly: rng.chance(1, 3) }); return { file: F.name, kind: "named", name: ln }; }
@@ -105,15 +114,6 @@ export function genSplitProject(rng, p) {
     if (r === 7 && rng.chance(1, 2)) {
       const cands = decls.filter((d) => place.get(d[1]) === F.name && d[1] !== X).map((d) => local.get(d[1])).filter((n) => n !== ln && !F.exported.has(n));
       if (cands.length) { const en = rng.pick(cands); F.exported.add(en); F.stmts.push({ kind: "export-local", name: ln, renamed: en }); return { file: F.name, kind: "named", name: en }; }
-    }
-    // exported under the name of a TYPE PARAMETER of some generic declaration (`export { Local as T }`): reached only through
-    // `import("…").T` / `NS.T`, where the name after the dot is an export of that file whatever parameters are in scope
-    const params = [...new Set(decls.flatMap((x) => x[2]))].filter((n) => !F.exported.has(n) && !F.locals.has(n));
-    if (params.length && rng.chance(1, 3)) {
-      const en = rng.pick(params);
-      F.exported.add(en);
-      F.stmts.push({ kind: "export-local", name: ln, renamed: en });
-      return { file: F.name, kind: "named", name: en };
     }
     const en = F.freshExport(ln + "_r");
     F.stmts.push({ kind: "export-local", name: ln, renamed: en });
@@ -513,6 +513,7 @@ export function genEnumLayer(rng) {
       entryImport: imp + `\nimport { En as EnTwin } from "./enums_b";`, entryType: both(path, "EnTwin"),
       extra: [{ x: "a", y: "a2" }, { x: "a", y: "a" }, { x: "a2", y: "a2" }, { x: "a2", y: "a" }, { x: { tag: "b" }, y: { tag: "b2" } }, { x: { tag: "b2" }, y: { tag: "b" } }, { x: { tag: "b" }, y: { tag: "b" } }] };
   }
-  const use = rng.pick([(q) => `${q}.A | { tag: ${q}.B }`, (q) => `{ tag: ${q}.B }`, (q) => `${q}`, (q) => `${q}.A`]);
+  // (also in VALUE position: `typeof En.A` reads the enum as a value — an enum exported through an export list is a type AND a value)
+  const use = rng.pick([(q) => `${q}.A | { tag: ${q}.B }`, (q) => `{ tag: ${q}.B }`, (q) => `${q}`, (q) => `${q}.A`, (q) => `typeof ${q}.A`, (q) => `{ tag: typeof ${q}.B } | ${q}.A`]);
   return { singleDecl: `enum En { ${members} }`, singleType: use("En"), files, entryImport: imp, entryType: use(path), extra: [] };
 }
